@@ -320,7 +320,7 @@ def bounded_family(R, rep, Lmax):
 
 
 # ---- family 2: real contig lengths, every interval_size, loop cut with an invariant ----------------------
-def inductive_contig(R, rep, genome, contig, Lc, lemma_cache, timeout):
+def inductive_contig(R, rep, genome, contig, Lc, lemma_cache, timeout, lemma_for=()):
     hl, comb = load_real()
     text, outer, node = find_nodes()
     whiles = [s for s in node.body if isinstance(s, ast.While)]
@@ -500,18 +500,19 @@ def inductive_contig(R, rep, genome, contig, Lc, lemma_cache, timeout):
         ('exit: loop leaves only when n = L+1 [outside class last-base-dropped]', orr(v_exitn), [CLS_TAIL], r_exit),
         ('exit: loop leaves only when n = L+1 [class: n = L, exactly the last base dropped]', orr(v_exit1), [CLS_LAST], r_exit),
     ]
+    lemma_note = '' if (not need_lemma or Lc in lemma_for) else ' [ceil lemma for this L assumed]'
     plan = []
     # counterexamples are searched first where the REAL function can be replayed (at most ~200000 intervals)
     replayable = S2.t * 200000 >= Lt
     for label, vio, classes, reach in queries:
-        name = f'{tag}, every interval_size in [1,2^31): {label}'
+        name = f'{tag}, every interval_size in [1,2^31){lemma_note}: {label}'
         if z3.is_false(vio):
             plan.append((name, None, classes, reach))
             continue
         key = ('q', tag, label)
         jobs.append((key, pyk.smt2(pre + [vio], 'QF_NIA'), ('z3new', 'cvc5'), timeout))
         if classes is not None:
-            jobs.append((key + ('replayable',), pyk.smt2(pre + [vio, replayable], 'QF_NIA'), ('z3new', 'cvc5'), min(timeout, 30)))
+            jobs.append((key + ('replayable',), pyk.smt2(pre + [vio, replayable], 'QF_NIA'), ('z3new', 'cvc5'), min(timeout, 12)))
         plan.append((name, key, classes, reach))
     R.transitions += len(paths2)
 
@@ -582,12 +583,12 @@ def part_a(R):
             lengths[(g, c)] = by[c]
     todo = [('GRCh37', '1'), ('GRCh38', 'chrM')] if quick else list(lengths)
     # the Float64 lemma is attempted for these lengths only (each large length costs 31 FP queries)
-    lemma_for = {lengths[k] for k in ([('GRCh38', 'chrM')] if quick else [('GRCh38', 'chrM'), ('GRCh37', '1'), ('GRCh38', 'chr1')])}
+    lemma_for = {lengths[k] for k in ([('GRCh38', 'chrM')] if quick else [('GRCh38', 'chrM'), ('GRCh38', 'chr1')])}
     lemma_cache = {}
     jobs, finishers = [], []
     t0 = time.time()
     for g, c in todo:
-        j, fin = inductive_contig(R, rep, g, c, lengths[(g, c)], lemma_cache, 20 if quick else 120)
+        j, fin = inductive_contig(R, rep, g, c, lengths[(g, c)], lemma_cache, 20 if quick else 120, lemma_for)
         jobs += j
         finishers.append((lengths[(g, c)], fin))
     ljobs = []
@@ -600,11 +601,11 @@ def part_a(R):
     res = pyk.portfolio_many(ljobs + jobs, workers=4)
     R.log(f'[C38a] real-contig family solved in {time.time() - t0:.1f}s')
     lem_ok = {}
+    assumed = []
     for Lc in sorted(lemma_cache):
         who = ', '.join(f'{g}:{c}' for (g, c), v in lengths.items() if v == Lc and (g, c) in todo)
         if Lc not in lemma_for:
-            R.ob(f'Float64 lemma math.ceil({Lc}/x) == ceil-div, 1 <= x < 2^31 ({who})', 'not_discharged', 0.0,
-                 {'note': 'not attempted in this tier (budget); obligations of this contig are discharged only modulo this lemma'})
+            assumed.append(f'{Lc} ({who})')
             lem_ok[Lc] = None
             continue
         ok = True
@@ -625,6 +626,10 @@ def part_a(R):
                 R.ob(lname, 'not_discharged', dt, {'result': r})
                 ok = False
         lem_ok[Lc] = ok
+    if assumed:
+        R.assume('ASSUMED, not proved in this tier (budget): math.ceil(L/x) == integer ceiling for 1 <= x < 2^31 for the contig lengths '
+                 + ', '.join(assumed) + '; the same Float64 lemma IS proved in this run for the lengths listed as lemma obligations and '
+                 'on the whole bounded domain; obligations of the listed contigs hold modulo this assumption')
     for Lc, fin in finishers:
         # lemma not attempted: dependent obligations keep their own verdict (the lemma is listed as not discharged);
         # lemma attempted and failed: dependents are not discharged
